@@ -51,6 +51,13 @@ def const_val(k):
     sv = k.get("s", "")
     if sv.startswith("const "):
         sv = sv[6:]
+    if len(sv) >= 3 and sv[0] == "b" and sv[1] == '"' and sv[-1] == '"' and "def" not in k:
+        # a byte-string literal the compiler prints instead of evaluating (named consts of type &[u8])
+        import ast as _ast
+        try:
+            return bytes(_ast.literal_eval(sv))
+        except (ValueError, SyntaxError):
+            return None
     if len(sv) >= 2 and sv[0] == '"' and sv[-1] == '"' and "def" not in k:
         # a string literal the compiler keeps as a type-level constant (match patterns)
         import json as _json
@@ -230,3 +237,40 @@ def equal_edges(bv, pred, holds=True):
         elif heads == {"std::cmp::PartialEq::ne"} and tr != holds:
             out.append((a, b))
     return out
+
+
+def with_private_callees(W, bv, same_self=True, limit=12):
+    """[bv] + the private (non-pub) synchronous local functions it calls, transitively: where a long function was
+    split into private helpers, a rule that reads the function's statements reads the helpers' too.  With same_self,
+    only helpers whose first parameter has the type of bv's first parameter (methods on the same receiver), so that
+    `param1` means the same thing in all of them."""
+    from .core import BV
+    out = [bv]
+    seen = {bv.id}
+    work = [bv]
+    while work and len(out) < limit:
+        v = work.pop()
+        for bi, t in v.calls():
+            rid = t.get("resolved_id") or t.get("callee_id")
+            b = W.by_id.get(rid) if rid else None
+            if b is None or b.get("kind") != "fn" or b.get("pub") or b["id"] in seen or t.get("trait"):
+                continue
+            cv = BV.of(b)
+            if same_self:
+                if not (cv.argc >= 1 and bv.argc >= 1 and cv.lty(1)["s"] == bv.lty(1)["s"]):
+                    continue
+                a0 = t["args"][0] if t.get("args") else None
+                pl = (a0.get("m") or a0.get("c")) if a0 else None
+                # the receiver handed on must be our own receiver
+                if pl is None or strip_refs(v.trace_op(a0)) != ("param", 1):
+                    continue
+            seen.add(b["id"])
+            out.append(cv)
+            work.append(cv)
+    return out
+
+
+def strip_refs(t):
+    while t[0] in ("ref", "deref"):
+        t = t[1]
+    return t
